@@ -121,6 +121,24 @@ func c37ExecPat(i c37In) vh.Out {
 	}
 	obs["raw"] = raws
 	obs["variants"] = strs
+	// every rendered variant must itself be an acceptable pattern that renders to itself
+	stable := true
+	for _, s := range strs {
+		vp, err := ParsePathPattern(s)
+		if err != nil || vp.NumVariants() != 1 {
+			stable = false
+			break
+		}
+		vp.RenderAllVariants(func(_ int, v PatternVariant) {
+			if v.String() != s {
+				stable = false
+			}
+		})
+	}
+	obs["variants_stable"] = stable
+	if !stable {
+		tags = append(tags, "variant-not-stable")
+	}
 	obs["rewritten"] = rewritten || len(raws) != len(variants)
 	if rewritten {
 		tags = append(tags, "rendering-rewrites")
@@ -539,6 +557,44 @@ func c37NestedFamily(r *vh.Rand) c37In {
 	return c37In{Kind: "pat", Pattern: pat, Paths: ps}
 }
 
+func c37Escape(w string) string {
+	var sb strings.Builder
+	for k := 0; k < len(w); k++ {
+		if strings.IndexByte("*?[]{}\\,", w[k]) >= 0 {
+			sb.WriteByte('\\')
+		}
+		sb.WriteByte(w[k])
+	}
+	return sb.String()
+}
+
+// literals made of escaped metacharacters, with paths that contain those literal bytes and paths that an unescaped reading
+// of the rendered variant would match (a character class, a wildcard, a group)
+func c37EscapeFamily(r *vh.Rand) c37In {
+	w := r.Str("ab[]*?{},\\", 1, 4)
+	if r.Chance(1, 2) {
+		w = r.Pick([]string{"[a]", "[ab]", "]", "[", "a[b", "{a,b}", "{a}", "a*", "?", "a\\b", "\\", "[a-b]", "[!a]", "*[a]", "a,b"})
+	}
+	head := r.Pick([]string{"/foo/", "/", "/a/"})
+	tail := r.Pick([]string{"", "", "*", "/**", "{,x}", "/b"})
+	pat := head + c37Escape(w) + tail
+	if r.Chance(1, 4) {
+		pat = head + "{" + c37Escape(w) + "," + c37Escape(r.Str("ab[]", 1, 2)) + "}" + tail
+	}
+	strip := strings.NewReplacer("[", "", "]", "", "{", "", "}", "", "\\", "", "!", "").Replace(w)
+	ps := []string{head + w, head + strip, head + w + "x", head + "a", head + "b", c37Instantiate(r, head+w+tail)}
+	if len(strip) > 0 {
+		ps = append(ps, head+strip[:1])
+	}
+	for c := range ps {
+		ps[c] = c37Clean(ps[c])
+		if tail == "/b" || tail == "/**" {
+			ps[c] = c37Clean(ps[c] + "/b")
+		}
+	}
+	return c37In{Kind: "pat", Pattern: pat, Paths: ps}
+}
+
 func c37Gen(r *vh.Rand, tier string, n int) []c37In {
 	if n == 0 {
 		n = 600
@@ -566,6 +622,15 @@ func c37Gen(r *vh.Rand, tier string, n int) []c37In {
 		"/x/" + alts(27) + "/" + alts(37), "/" + alts(1001), "/" + alts(1000) + "{,/}"} {
 		ins = append(ins, c37In{Kind: "pat", Pattern: p, Paths: []string{"/aa"}})
 	}
+	// fixed members of the escaped-metacharacter family
+	ins = append(ins,
+		c37In{Kind: "pat", Pattern: "/foo/\\[a\\]", Paths: []string{"/foo/[a]", "/foo/a", "/foo/[a]/", "/foo/b"}},
+		c37In{Kind: "pat", Pattern: "/foo/{\\[,\\]}*", Paths: []string{"/foo/[x", "/foo/]", "/foo/x", "/foo/[", "/foo/]x/"}},
+		c37In{Kind: "pat", Pattern: "/a\\*b", Paths: []string{"/a*b", "/axb", "/ab"}},
+		c37In{Kind: "pat", Pattern: "/a\\?", Paths: []string{"/a?", "/ab"}},
+		c37In{Kind: "pat", Pattern: "/\\{a\\,b\\}", Paths: []string{"/{a,b}", "/a", "/b"}},
+		c37In{Kind: "pat", Pattern: "/a\\\\b", Paths: []string{"/a\\b", "/ab", "/a/b"}},
+		c37In{Kind: "pat", Pattern: "/\\[a-c\\]/**", Paths: []string{"/[a-c]/x", "/b/x", "/[a-c]"}})
 	// fixed members of the nested-group family
 	ins = append(ins,
 		c37In{Kind: "pat", Pattern: "/foo/{{a,b},{a,b,c}}", Paths: []string{"/foo/a", "/foo/b", "/foo/c", "/foo/d", "/foo/c/"}},
@@ -595,6 +660,8 @@ func c37Gen(r *vh.Rand, tier string, n int) []c37In {
 			ins = append(ins, c37In{Kind: "pat", Pattern: c37Malformed(r)})
 		case j%10 == 4:
 			ins = append(ins, c37NestedFamily(r))
+		case j%10 == 6:
+			ins = append(ins, c37EscapeFamily(r))
 		case j%2 == 0:
 			p := c37Pattern(r)
 			var ps []string
